@@ -288,6 +288,16 @@ pub fn semantic_corruption(g: &mut Gen, cfg: &PicCfg, aim: &Aim) -> (Vec<u8>, &'
                 Size::Cif16 => (5, None),
                 sz => (6, sz.dims()),
             };
+            // half of the time a wide custom format of its own (the vector range of Annex D depends
+            // on the size class, and long rows let the predictors run far), whatever came before
+            let own = g.chance(1, 2);
+            let (fmt, cp) = if own {
+                let w = *g.pick(&[176usize, 352, 356, 704, 708, 1408, 1412, 1760, 1764, 1900, 2048]);
+                let h = *g.pick(&[4usize, 16, 32, 292, 580]);
+                (6, Some((w, h)))
+            } else {
+                (fmt, cp)
+            };
             let mut p = base_plus();
             p.opp = Opp::from_mode_bits(fmt, false, 1 << 9);
             if let Some((cw, ch)) = cp {
@@ -300,11 +310,14 @@ pub fn semantic_corruption(g: &mut Gen, cfg: &PicCfg, aim: &Aim) -> (Vec<u8>, &'
             h.quant = g.range(1, 31) as u8;
             let mut w = BitWriter::new();
             h.write(false, &Inherited::default(), &mut w);
-            let n = match like.mb_dims() {
-                Some((a, b)) => (a * b).min(400),
-                None => 20,
+            let n = match (own, cp, like.mb_dims()) {
+                (true, Some((cw, ch)), _) => (((cw + 15) / 16) * ((ch + 15) / 16)).min(400),
+                (_, _, Some((a, b))) => (a * b).min(400),
+                _ => 20,
             };
-            let style = g.below(5);
+            let style = g.below(6);
+            let run = g.range(6, 12) as usize;
+            let run_sign = if g.bool() { 1 } else { -1 };
             for i in 0..n {
                 w.put_bit(false); // COD
                 w.put_code("1"); // MCBPC: INTER, no chroma
@@ -329,6 +342,14 @@ pub fn semantic_corruption(g: &mut Gen, cfg: &PicCfg, aim: &Aim) -> (Vec<u8>, &'
                         continue;
                     }
                     let v: i32 = match style {
+                        // a run of extreme differences of one sign, then small ones of the other
+                        5 => {
+                            if i < run {
+                                4095 * run_sign
+                            } else {
+                                -run_sign * *g.pick(&[1i32, 1, 2, 0, 3])
+                            }
+                        }
                         0 => 4095,
                         1 => -4095,
                         2 => {
